@@ -58,7 +58,7 @@ struct Cm {
   long lastRecvRet; int lastRecvErr;
   Vec<Op> qRead, qWrite;
   // scripts of drain-exh / rand: small writes that arrive between the partial sends of one backlog, and what onWrite does when the backlog has drained
-  long midLeft; int wAct; bool wActArmed, pendAtDrain, pendScripted; int pendOther; long wSize; int wPost; long partialDrainsOfBacklog, midWritesOfBacklog;
+  long midLeft; int wAct; bool wActArmed, pendAtDrain, pendScripted, otherInjected; int pendOther; long wSize; int wPost; long partialDrainsOfBacklog, midWritesOfBacklog;
   // model of the send Buffer's policy (capacity, front offset, size): steers the sizes of the mid-drain writes and feeds coverage counters, never a verdict
   u64 bufC, bufOff, bufN;
   u64 backlog() const { return out.total(inWrite) - S; }
@@ -222,13 +222,20 @@ static void hWaitEnter(int epfd, int timeout) {
   // for "remove-other" the other client's read event is put into the same batch
   if (!g_kernel) for (size_t i = 0; i < g_cl.n; ++i) {
     Cm* m = g_cl[i];
-    if (!m->pendAtDrain || m->removed || m->suspended || m->backlogDropped || m->peerClosed || m->pfd < 0 || m->backlog() == 0) continue;
+    const bool wantOther = m->wActArmed && m->wAct == W_REMOVE_OTHER && !m->otherInjected;
+    if ((!m->pendAtDrain && !wantOther) || m->removed || m->backlogDropped || m->peerClosed || m->pfd < 0 || m->backlog() == 0) continue;
     u64 len = m->backlog(); int o = g_planPos < g_plan.n ? g_plan[g_planPos] : O_FULL;
     bool drains = o == O_FULL || (o == O_P1 && len == 1) || (o == O_PK && len < 3) || (o == O_PN1 && len < 2);
     if (!drains) continue;
-    m->pendAtDrain = false; cnt("peer_data_injected_before_draining_poll");
-    peerSend(m, 1 + (long)g_rng->below(16));
-    if (m->pendOther >= 0 && (size_t)m->pendOther < g_cl.n && !g_cl[(size_t)m->pendOther]->removed) peerSend(g_cl[(size_t)m->pendOther], 1 + (long)g_rng->below(16));
+    if (m->pendAtDrain && !m->suspended) {
+      m->pendAtDrain = false; cnt("peer_data_injected_before_draining_poll");
+      peerSend(m, 1 + (long)g_rng->below(16));
+    } else if (wantOther && (m->suspended || m->inSent == m->inRead)) {
+      // nothing to read on this client: the coming round handles its write readiness, the other client's read event sits in the same batch
+      Cm* ot = m->pendOther >= 0 && (size_t)m->pendOther < g_cl.n ? g_cl[(size_t)m->pendOther] : 0;
+      m->otherInjected = true;
+      if (ot && ot != m && !ot->removed && !ot->suspended) { cnt("other_client_made_readable_before_draining_poll"); peerSend(ot, 1 + (long)g_rng->below(16)); }
+    }
   }
 }
 
@@ -410,6 +417,7 @@ static void readFrom(Cm* m, long maxTotal) {
   }
 }
 
+static void settlePeer(Cm* m);
 static void execOp(Cm* self, const Op& op) {
   Cm* t = op.tgt >= 0 && (size_t)op.tgt < g_cl.n ? g_cl[(size_t)op.tgt] : self;
   if (!t || t->removed) return;
@@ -552,7 +560,7 @@ static Cm* newCm(int id, int origin) {
   m->id = id; m->cb.m = m; m->origin = origin; m->c = 0; m->fd = m->pfd = -1; m->S = m->peerGot = 0; m->inWrite = m->errInThisWrite = m->backlogDropped = m->suspended = m->closedSeen = m->expectClosed = m->removed = m->pendingOnWrite = m->peerClosed = m->peerEof = m->inBatch = false;
   m->lastOutcome = -1; m->onWriteCount = m->transitions = m->onReadCount = 0; m->inSent = m->inRead = 0; m->lastRecvRet = 0; m->lastRecvErr = 0;
   m->out.salt = (u32)(id * 2 + 11); m->inSalt = (u32)(id * 2 + 12);
-  m->midLeft = 0; m->wAct = W_NONE; m->wActArmed = m->pendAtDrain = m->pendScripted = false; m->pendOther = -1; m->wSize = 1; m->wPost = 0; m->partialDrainsOfBacklog = m->midWritesOfBacklog = 0;
+  m->midLeft = 0; m->wAct = W_NONE; m->wActArmed = m->pendAtDrain = m->pendScripted = m->otherInjected = false; m->pendOther = -1; m->wSize = 1; m->wPost = 0; m->partialDrainsOfBacklog = m->midWritesOfBacklog = 0;
   m->bufC = m->bufOff = m->bufN = 0;
   return m;
 }
